@@ -11,6 +11,8 @@ mutated valid pipelines, random ASCII and non-ASCII text (structure or exception
 (6) passes: every registered pass class (xdsl.transforms.get_all_passes) and synthetic pass classes
 covering every supported option type, instantiated with generated values of each declared field
 type: pipeline_pass_spec, its text, PassPipeline.parse_spec of the text (fields of the new pass),
+(6b) pipelines: 2-4 passes where one class occurs 2-3 times with different (sometimes identical)
+option values, interleaved with other passes, printed comma-joined and parsed back position by position,
 (7) from-text: hand-made/mutated option texts against the registered classes (pass / ValueError /
 ArgSpecParseError).  Floats cross the boundary as IEEE bit patterns; float()/str() are tables
 computed by CPython per case (named oracle).
@@ -980,6 +982,136 @@ def pass_coq(case):
     return f"c18_pass_rt {coq_ptab(text)} {coq_stab(fs)} {coq_class(cls)} {vals}"
 
 
+# ------------------------------------------------------------------------------------ family: pipelines
+def rand_pipeline_case(rng, cids, with_opts):
+    """2-4 passes; one class with options occurs 2-3 times with different (sometimes identical) option
+    values, interleaved with other passes"""
+    rep_cls = rng.choice(with_opts)
+    n_rep = rng.choice([2, 2, 3])
+    first = rand_pass_case(rng, rep_cls, plain=True)
+    items = [first]
+    for _ in range(n_rep - 1):
+        r = rng.random()
+        if r < 0.25:
+            items.append({"cls": rep_cls, "vals": dict(first["vals"])})          # identical repeat
+        elif r < 0.6 and first["vals"]:
+            # same option names, different values
+            other = rand_pass_case(rng, rep_cls, plain=True)
+            hints = get_type_hints(get_class(rep_cls))
+            vals = {}
+            for k in first["vals"]:
+                v = other["vals"].get(k)
+                for _ in range(20):
+                    if v is not None and v != first["vals"][k]:
+                        break
+                    v = jenc(gen_plain(rng, hints[k]))
+                vals[k] = v
+            items.append({"cls": rep_cls, "vals": vals})
+        else:
+            items.append(rand_pass_case(rng, rep_cls, plain=True))
+    for _ in range(rng.choice([0, 1, 1, 2])):
+        c = rng.choice(cids)
+        if get_class(c).name != get_class(rep_cls).name:
+            items.insert(rng.randint(0, len(items)), rand_pass_case(rng, c, plain=True))
+    if rng.random() < 0.3:
+        rng.shuffle(items)
+    return {"passes": items[:4] if len(items) > 4 and rng.random() < 0.5 else items}
+
+
+def gen_plain(rng, t):
+    for _ in range(50):
+        v = gen_of_type(rng, t)
+        flat = v if isinstance(v, tuple) else (v,)
+        if not value_classes(flat) and not union_collapse(t, v):
+            break
+    return v
+
+
+def pl_build(case):
+    return [build_pass(c) for c in case["passes"]]
+
+
+def pl_registry(case):
+    reg = []
+    for c in case["passes"]:
+        if c["cls"] not in reg:
+            reg.append(c["cls"])
+    return reg
+
+
+def pl_text(built):
+    return ",".join(str(p.pipeline_pass_spec()) for _, p in built)
+
+
+def pl_impl(case):
+    from xdsl.passes import PassPipeline
+    built = pl_build(case)
+    text = pl_text(built)
+    reg = {get_class(c).name: (lambda c=c: get_class(c)) for c in pl_registry(case)}
+    try:
+        passes = PassPipeline.parse_spec(reg, text).passes
+    except BaseException as e:
+        if isinstance(e, (KeyboardInterrupt, SystemExit, MemoryError)):
+            raise
+        return [cps(text), [-1, exc_kind(e)]]
+    return [cps(text),
+            [0, [[cps(q.name), [enc_pval(getattr(q, f.name)) for f in init_fields(type(q))]] for q in passes]]]
+
+
+def pl_holds(case, res):
+    from xdsl.passes import PassPipeline
+    built = pl_build(case)
+    text = uncps(res[0])
+    if res[1][0] != 0:
+        return False, f"{text[:160]!r} does not parse back: {ERRNAME.get(res[1][1])}"
+    reg = {get_class(c).name: (lambda c=c: get_class(c)) for c in pl_registry(case)}
+    back = PassPipeline.parse_spec(reg, text).passes
+    if len(back) != len(built):
+        return False, f"{text[:160]!r} parses to {len(back)} passes, printed from {len(built)}"
+    for i, ((cls, p), q) in enumerate(zip(built, back)):
+        if type(q) is not cls:
+            return False, f"{text[:160]!r}: pass #{i} is a {type(q).__name__}, was a {cls.__name__}"
+        for f in dataclasses.fields(cls):
+            if f.compare and not py_equal(getattr(p, f.name), getattr(q, f.name)):
+                return False, (f"{text[:160]!r}: pass #{i} ({cls.name}) option {f.name} was "
+                               f"{getattr(p, f.name)!r:.60}, comes back as {getattr(q, f.name)!r:.60}")
+    return True, ""
+
+
+def pl_known(case, res):
+    for c in case["passes"]:
+        k = pass_known(c, None)
+        if k:
+            return k
+    return None
+
+
+def pl_nontrivial(case, res):
+    names = [c["cls"] for c in case["passes"]]
+    rep = [c for c in case["passes"] if names.count(c["cls"]) > 1]
+    if len(rep) > 1 and any(c["vals"] != rep[0]["vals"] for c in rep[1:]):
+        return repr(case["passes"])
+    return None
+
+
+def pl_coq(case):
+    built = pl_build(case)
+    text = pl_text(built)
+    reg = pl_registry(case)
+    fs = set()
+    for cls, p in built:
+        for f in init_fields(cls):
+            floats_in(getattr(p, f.name), fs)
+            has, d = field_default(f)
+            if has:
+                floats_in(d, fs)
+    items = coq_list("({}%nat, {})".format(reg.index(c["cls"]),
+                                           coq_list(coq_pval(getattr(p, f.name)) for f in init_fields(cls)))
+                     for c, (cls, p) in zip(case["passes"], built))
+    return (f"c18_pipeline_rt {coq_ptab(text)} {coq_stab(fs)} "
+            f"{coq_list(coq_class(get_class(c)) for c in reg)} {items}")
+
+
 # ------------------------------------------------------------------------------------ family: from-text
 def rand_option_text(rng, cls):
     """a mostly plausible option text for `cls`: right/wrong keys, values of right/wrong type, omissions"""
@@ -1066,6 +1198,7 @@ FAMILIES = {
     "parse": (parse_impl, lambda c: f"c18_parse {coq_ptab(c['s'])} {coq_str(c['s'])}", parse_holds),
     "print-parse": (pp_impl, pp_coq, pp_holds),
     "passes": (pass_impl, pass_coq, pass_holds),
+    "pipelines": (pl_impl, pl_coq, pl_holds),
     "from-text": (ft_impl, ft_coq, ft_holds),
 }
 
@@ -1132,6 +1265,7 @@ def run(ctx: Ctx):
     replay_findings(ctx, "print-parse", pp_impl, pp_holds)
     replay_findings(ctx, "passes", pass_impl, pass_holds)
     replay_findings(ctx, "parse", parse_impl, parse_holds)
+    replay_findings(ctx, "pipelines", pl_impl, pl_holds)
 
     # (1) character classes, every code point (thorough) / the blocks containing every class member (quick)
     blocks = class_blocks(thorough)
@@ -1183,6 +1317,11 @@ def run(ctx: Ctx):
         cases += [rand_pass_case(rng, c, plain=(i % 2 == 0)) for i in range(reps)]
     differential(ctx, DiffSpec("passes", REQ, cases, pass_impl, pass_coq, pass_holds, pass_known, pass_nontrivial,
                                prelude=PRELUDE, shard=SHARD))
+
+    # (6b) pipelines of 2-4 passes in which one class occurs 2-3 times with different / identical option values
+    plcases = [rand_pipeline_case(rng, cids, with_opts) for _ in range(90 * k)]
+    differential(ctx, DiffSpec("pipelines", REQ, plcases, pl_impl, pl_coq, pl_holds, pl_known, pl_nontrivial,
+                               prelude=PRELUDE, shard=30))
 
     # (7) option texts (right and wrong) against the classes: pass / ValueError / ArgSpecParseError
     fcases = []
